@@ -6,9 +6,9 @@ from .. import core, iogen
 from . import c01
 
 ID = "C03"
-MODULE = "Check.IoCheck"
+MODULE = "Check.C03Check"
 CASE_TYPE = "IOcase"
-CORR, ORACLE, HYP = "IOcorr", "C03oracle", "IOtrue"
+CORR, ORACLE, HYP = "IOcorr", "C03oracle", "C03hyp"
 LAYOUTS = ["long", "short", "elan-long", "json", "textgrid_json"]
 ENCODINGS = ["utf-8", "utf-8-sig", "utf-16-le", "utf-16-be"]
 RULE = ("files written by an independent writer in /verif/harness (not praatio's) from random tier data: 1-4 tiers, both kinds, "
@@ -355,6 +355,13 @@ def emit_multi(case, r):
             terms.append("ParseTextN %s %s %s (Ok %s)" % (core.cbool(case["empty"]), core.ctext(v["seen"]), iogen.ccanon(v["seen"]), iogen.crtg(rt)))
         elif "parse_err" in v:
             terms.append("ParseTextN %s %s %s (Err %s)" % (core.cbool(case["empty"]), core.ctext(v["seen"]), iogen.ccanon(v["seen"]), v["parse_err"]))
+        if case["layout"] in ("long", "elan-long"):
+            # is this file inside the hypotheses of the whole-file theorem of the layout family?
+            g, toks = case["g"], case["toks"]
+            tab = core.clist(["(%s, mkNum false %s %s)" % (core.cz(k), core.ctext(""), core.ctext(toks[k])) for k in range(len(toks))], "(Z * num)")
+            sty = " ".join(core.ctext(x) for x in ("]:", "]" if case["layout"] == "elan-long" else "]:", " " * 8, " " * 12,
+                                                     " " if case["sp"] else "", " "))
+            terms.append("LongStyledC %s %s %s %s" % (sty, tab, iogen.cdtg(g), core.ctext(v["seen"])))
     return terms
 
 
